@@ -11,19 +11,23 @@ static const char *exact_names[] = {"mcb_sva_signed", "mcb_sva_fvs_trees", "mcb_
 static const char *approx_names[] = {"approx_mcb_sva_signed", "approx_mcb_sva_fvs_trees", "approx_mcb_sva_iso_trees",
         "approx_mcb_sva_signed_tbb", "approx_mcb_sva_fvs_trees_tbb", "approx_mcb_sva_iso_trees_tbb"};
 
-template<class W, class WMapT>
-inline W run_exact(int variant, const typename BG<W>::Graph &g, WMapT w, std::list<std::list<typename BG<W>::Edge>> &out) {
+template<class W, class WMapT, class OutIt>
+inline W run_exact_it(int variant, const typename BG<W>::Graph &g, WMapT w, OutIt out) {
     switch (variant) {
-    case V_SIGNED: return parmcb::mcb_sva_signed(g, w, std::back_inserter(out));
-    case V_FVS: return parmcb::mcb_sva_fvs_trees(g, w, std::back_inserter(out));
-    case V_ISO: return parmcb::mcb_sva_iso_trees(g, w, std::back_inserter(out));
+    case V_SIGNED: return parmcb::mcb_sva_signed(g, w, out);
+    case V_FVS: return parmcb::mcb_sva_fvs_trees(g, w, out);
+    case V_ISO: return parmcb::mcb_sva_iso_trees(g, w, out);
 #ifndef VF_NO_TBB_VARIANTS
-    case V_SIGNED_TBB: return parmcb::mcb_sva_signed_tbb(g, w, std::back_inserter(out));
-    case V_FVS_TBB: return parmcb::mcb_sva_fvs_trees_tbb(g, w, std::back_inserter(out));
-    case V_ISO_TBB: return parmcb::mcb_sva_iso_trees_tbb(g, w, std::back_inserter(out));
+    case V_SIGNED_TBB: return parmcb::mcb_sva_signed_tbb(g, w, out);
+    case V_FVS_TBB: return parmcb::mcb_sva_fvs_trees_tbb(g, w, out);
+    case V_ISO_TBB: return parmcb::mcb_sva_iso_trees_tbb(g, w, out);
 #endif
     }
     abort();
+}
+template<class W, class WMapT>
+inline W run_exact(int variant, const typename BG<W>::Graph &g, WMapT w, std::list<std::list<typename BG<W>::Edge>> &out) {
+    return run_exact_it<W>(variant, g, w, std::back_inserter(out));
 }
 
 #ifdef VF_WITH_APPROX
